@@ -1,7 +1,8 @@
-\* TLC configuration for SessionIds.tla.  checks/c36.py rewrites N (2, 3) and Pre into a scratch copy.
+\* TLC configuration for SessionIds.tla.  checks/c36.py rewrites N, PreRows and Rule into a scratch copy.
 CONSTANTS
   N = 2
-  Pre = 1
+  PreRows = {0}
+  Rule = "count"
 INIT Init
 NEXT Next
 INVARIANT TypeOK
